@@ -45,6 +45,69 @@ func runC09(p *core.Prog, r *core.Report) {
 	// an import into a layout is followed by Close: the collector keeps every entry the index lists,
 	// blob-typed entries included (shared with C08.R8)
 	c08R8(p, r, "C09.R9")
+	importOrderRule(p, r, "C09.R10")
+}
+
+// importOrderRule: the import queues one push step per manifest and runs the queue backwards, so the
+// order of queueing decides that children are pushed before their parent and the tag last. A child is
+// therefore never handled at once from the code that handles its parent: the recursion lives only in
+// handlers that the archive scan calls later, after the parent's own step was queued.
+func importOrderRule(p *core.Prog, r *core.Report, rule string) {
+	r.Rule(rule, "children are queued after their parent: every recursive call of the import's manifest handler sits inside a function literal that is stored into the handler table (run later by the archive scan), never in the handler's own body or in a literal it calls directly", 1)
+	imp := p.Method(".", "RegClient", "imageImportOCIHandleManifest")
+	if imp == nil {
+		r.MissingAnchor(rule, "regclient.(*RegClient).imageImportOCIHandleManifest")
+		return
+	}
+	// literals that are registered: the value of a map update or of a store into a field, not called in place
+	registered := map[*ssa.Function]bool{}
+	for _, f := range core.WithAnon(imp) {
+		for _, b := range f.Blocks {
+			for _, in := range b.Instrs {
+				var v ssa.Value
+				switch x := in.(type) {
+				case *ssa.MapUpdate:
+					v = x.Value
+				default:
+					continue
+				}
+				for i := 0; i < 3; i++ {
+					if ct, ok := v.(*ssa.ChangeType); ok {
+						v = ct.X
+					}
+				}
+				if mc, ok := v.(*ssa.MakeClosure); ok {
+					if lit, ok := mc.Fn.(*ssa.Function); ok {
+						registered[lit] = true
+					}
+				}
+				if lit, ok := v.(*ssa.Function); ok {
+					registered[lit] = true
+				}
+			}
+		}
+	}
+	n := 0
+	lab := labeler{}
+	for _, f := range core.WithAnon(imp) {
+		core.Calls(f, func(c ssa.CallInstruction) {
+			if core.CalleeFn(c) != imp {
+				return
+			}
+			n++
+			// the call is deferred to the scan when f, or a literal enclosing f, is registered
+			ok := false
+			for g := f; g != nil && g != imp; g = g.Parent() {
+				if registered[g] {
+					ok = true
+				}
+			}
+			r.Check(ok, rule, p.FuncName(f), lab.next("recursion into a child manifest"), p.Pos(c.Pos()), "the child manifest is handled at once, before the step that pushes its parent is queued: the queue is run backwards, so the parent (and for the top level the tag) is written before the child — a crash in between leaves a tag that names an incomplete image")
+		})
+	}
+	if n == 0 {
+		r.Held(rule, p.FuncName(imp), "no recursion", p.Pos(imp.Pos()), "the handler does not call itself")
+	}
 }
 
 func c09R2R3(p *core.Prog, r *core.Report) {
